@@ -66,10 +66,17 @@ Accepted subset (anything else raises TranslateError with file:line):
               self.tmto_lookup[a][b][c] = self.custom_copy(e);  self.tmto_lookup = [] and
               self.tmto_lookup.append({});  if / elif / else (tests: bools, truth value of
               None-or-list, `x is None` / `x is not None`);  while (the test may raise; `while
-              True`);  for .. in range(..) / self.parse_tree;  break;  continue;  return e;
-              `return a, b`;  raise Exception;  try: .. except KeyError: .. as the last statement
-              of its block, both parts leaving the function;  print(.., file=sys.stderr)
-              (dropped);  calls of translated methods as statements;  docstrings;  pass.
+              True`);  for .. in range(..) / self.parse_tree / enumerate(<list of characters>);
+              break;  continue;  return e;  `return a, b`;  raise Exception;
+              try: .. except KeyError: .. as the last statement of its block, both parts
+              leaving the function, or `try: x = e  except KeyError: <leaves>` followed by more
+              statements (only e is guarded: mtry);  x = self.tmto_lookup[a].setdefault(b, {})
+              and stores x[c] = self.custom_copy(e) through that name;  x = self.cp[p] (a name
+              for an immutable level dict);  print(.., file=sys.stderr) (dropped);  calls of
+              translated methods as statements;  docstrings;  pass.
+              A private method without a spec of the form `def h(self): [docstring] return e` is
+              inlined at its call sites self.h() (e is translated in place, on the caller's
+              self); any other unknown method of the three classes is refused.
   expressions names;  int constants, True, False, None;  -e, a + b, a - b on ints;  s + t, s + c on
               strings;  len(..);  s[a:b];  l[i];  the attribute / subscript forms of the objects
               above;  < <= > >= == != on ints;  k in D / k not in D on self.cp, self.cp[p],
